@@ -51,6 +51,34 @@ pub fn histories(ctx: &Ctx, p: &str, name: &str, entry: &str, ops: Vec<Op>) {
     });
 }
 
+/// Long runs over MANY distinct arguments on one fresh thread (bounded caches, least-recently-used lists, pools: whatever a
+/// size limit does when it is reached shows only after more distinct arguments than the limit). `make(k)` is the k-th of
+/// `n` operations with pairwise distinct arguments; the visiting orders are: forward twice; forward then backward; zig-zag
+/// (k, k+1, k for every k: the argument used just before the newest one is used again); a hot argument alternating with a
+/// stream of new ones; and the triangular order 0, 0 1, 0 1 2, ...
+pub fn long_runs(ctx: &Ctx, p: &str, name: &str, entry: &str, n: usize, make: impl Fn(usize) -> Op) {
+    let ops: Arc<Vec<Op>> = Arc::new((0..n).map(&make).collect());
+    let orders: Vec<(&str, Vec<usize>)> = vec![
+        ("forward-twice", (0..n).chain(0..n).collect()), ("forward-then-backward", (0..n).chain((0..n).rev()).collect()),
+        ("zig-zag", (0..n - 1).flat_map(|k| [k, k + 1, k]).collect()), ("hot-argument-and-a-stream", (1..n).flat_map(|k| [0, k]).chain([0]).collect()),
+        ("triangular", (0..n.min(24)).flat_map(|k| 0..=k).collect()), ("backward-zig-zag", (1..n).rev().flat_map(|k| [k, k - 1, k]).collect())];
+    let bound = format!("{n} operations with pairwise distinct arguments visited on one fresh thread in {} orders (forward twice, forward then backward, zig-zag, a hot argument against a stream of new ones, triangular, backward zig-zag): every result is the reference result of its own arguments", orders.len());
+    ctx.sweep(name, &bound, orders.len() as u64, |i| {
+        let (oname, order) = &orders[i as usize]; let (ops2, ord2) = (ops.clone(), order.clone());
+        let got: Vec<Result<Outcome, String>> = std::thread::Builder::new().stack_size(16 << 20).spawn(move || ord2.iter().map(|k| guard(|| (ops2[*k].check)())).collect()).expect("spawn").join().unwrap_or_else(|_| vec![Err("thread died".into())]);
+        let replay = json!({"sweep": name, "index": i, "entry": entry, "order": oname, "distinct_arguments": n, "operations": order.len()});
+        ctx.sample(name, || replay.clone());
+        for (step, r) in got.iter().enumerate() {
+            match r {
+                Err(pn) => { ctx.eval(format!("run={oname}:panic")); ctx.panic_violation(format!("{p}:long-run:{oname}:panic@{}", panic_site(pn)), format!("operation {} of the run ({}) panics: {pn}", step + 1, ops[order[step]].label), replay); return; }
+                Ok(Err(m)) => { ctx.eval(format!("run={oname}:step-differs")); ctx.violation(format!("{p}:long-run:{oname}:differs-from-reference"), format!("operation {} of the run ({}, argument #{} of {n}): {m}", step + 1, ops[order[step]].label, order[step]), replay); return; }
+                Ok(Ok(_)) => {}
+            }
+        }
+        ctx.eval(format!("run={oname}:all-agree"));
+    });
+}
+
 fn phrases(seed: u64) -> (Vec<usize>, Vec<usize>, Vec<usize>) {
     let a = crate::c01::valid_indices(seed, 12, 900, None);
     let mut a2 = a.clone(); a2[11] = bip39::complete_last(&a[..11], a[11] ^ 0x400); // same first 11 words, another valid last word
@@ -138,3 +166,19 @@ pub fn c15_ops() -> Vec<Op> {
         op(format!("parse {l}"), move || match (t.parse::<Signature>(), &class) { (Err(_), Class::Accept(_)) => Err("a printed signature is refused".into()), (Err(_), _) => Ok("refused"), (Ok(s), Class::Reject) => Err(format!("accepted as {s}")),
             (Ok(s), Class::Accept(w)) | (Ok(s), Class::Unc(w)) => if s.to_string() == eth::sig_text(&w.0, &w.1, w.2) { Ok("signature") } else { Err(format!("parsed as {s}")) } }) }).collect()
 }
+
+pub fn c01_nth(seed: u64) -> impl Fn(usize) -> Op { move |k| { let t = text_of(&crate::c01::valid_indices(seed, [12usize, 15, 18, 21, 24][k % 5], 2000 + k as u64, None), " "); op(format!("parse phrase #{k}"), move || crate::c01::verdict(&t)) } }
+pub fn c02_nth(seed: u64) -> impl Fn(usize) -> Op { move |k| { let t = text_of(&crate::c01::valid_indices(seed, 12, 3000 + (k / 2) as u64, None), " "); let p = if k % 2 == 0 { "" } else { "TREZOR" }; let want = bip39::seed(&t, p);
+    op(format!("seed(phrase #{}, {p:?})", k / 2), move || match Mnemonic::from_phrase(&t).map(|m| *m.seed(p)) { Err(e) => Err(format!("valid phrase rejected: {e}")), Ok(s) if s[..] == want[..] => Ok("seed"), Ok(s) => Err(format!("seed {} instead of {}", explore::hex(&s), explore::hex(&want))) }) } }
+pub fn c03_nth(seed: u64) -> impl Fn(usize) -> Op { let curve = Curve::new(); let seeds = crate::c03::seeds(seed); move |k| { let sd = seeds[k % 2].clone(); let path: Vec<u32> = match k % 3 { 0 => vec![44 | HARD, 60 | HARD, HARD, 0, (k / 3) as u32], 1 => vec![44 | HARD, 60 | HARD, (k / 3) as u32 | HARD], _ => vec![(k / 3) as u32, 7] };
+    let text = grammar::path_text(&path); let want = bip32::derive(&curve, &sd, &path).map(|x| x.k.to_be());
+    op(format!("derive(seed#{}, {text})", k % 2), move || { let got = text.parse::<hdk::Path>().ok().and_then(|p| hdk::derive(&sd, &p).ok()).map(|x| x.secret()); if got == want { Ok("key") } else { Err(format!("derived {:?} instead of {:?}", got.map(|x| explore::hex(&x)), want.map(|x| explore::hex(&x)))) } }) } }
+pub fn c04_nth() -> impl Fn(usize) -> Op { let curve = Curve::new(); move |k| { let key = U256::from_u64(k as u64 * 0x9E37_79B9 + 1); let pt = curve.mul_g(&key).unwrap(); let want = eth::eip55(&eth::address_of_point(&pt));
+    op(format!("address of secret #{k}"), move || match PrivateKey::new(key.to_be()).map(|x| x.address().to_string()) { Ok(a) if a == want => Ok("address"), Ok(a) => Err(format!("address {a} instead of {want}")), Err(e) => Err(format!("valid secret refused: {e}")) }) } }
+pub fn c05_nth() -> impl Fn(usize) -> Op { let curve = Curve::new(); move |k| { let key = U256::from_u64(k as u64 * 0x9E37_79B9 + 1); let d = [(k % 3) as u8 + 1; 32]; let (r, s2, odd, _) = curve.sign_rfc6979(&key, &d); let want = eth::sig_text(&r, &s2, odd);
+    op(format!("sign(secret #{k}, digest {:02x}..)", d[0]), move || { let t = PrivateKey::new(key.to_be()).map_err(|e| format!("valid secret refused: {e}"))?.sign(ethdigest::Digest(d)).to_string(); if t == want { Ok("signature") } else { Err(format!("signature {t} instead of {want}")) } }) } }
+pub fn c06_nth() -> impl Fn(usize) -> Op { let keys = crate::c06::keys(); move |k| { let mut tx = txjson::template(if k % 2 == 0 { Kind::Eip2930 } else { Kind::Eip1559 }, true); tx.nonce = refmodel::nat::Nat::from_u64(k as u64); tx.access_list = vec![([(k % 251) as u8 + 1; 20], vec![[(k % 7) as u8; 32]; k % 3])]; let text = txjson::tx_json(&tx, Spell::Auto).to_text(); let key = keys[k % 2];
+    op(format!("transaction #{k}"), move || { let curve = Curve::new(); match observe_tx(&text, &Signer::Key(&key)) { Err(p) => Err(format!("panics: {p}")), Ok(Err(e)) => Err(format!("rejected: {e}")), Ok(Ok(o)) => match compare_tx(&curve, &tx, &o, Some(&key)) { None => Ok("signed"), Some((kk, what)) => Err(format!("{kk}: {what}")) } } }) } }
+pub fn c08_nth() -> impl Fn(usize) -> Op { use crate::tdcheck::{simple_doc, sv}; move |k| { let mut d = simple_doc(vec![("Mail".into(), sv(&[("from", "Person"), ("n", if k % 2 == 0 { "uint256" } else { "uint64" })])), ("Person".into(), sv(&[("name", "string")]))], "Mail", J::obj(vec![("from", J::obj(vec![("name", J::Str(format!("p{k}")))])), ("n", J::Num((k * 7).to_string()))]));
+    d.domain = J::obj(vec![("name", J::s("hdwallet")), ("chainId", J::Num((k / 2 + 1).to_string()))]); let text = d.to_json().to_text(); let (class, _) = eip712::evaluate(&d);
+    op(format!("typed-data document #{k}"), move || match (crate::tdcheck::observe(&text), &class) { (Err(p), _) => Err(format!("panics: {p}")), (Ok(Err(e)), _) => Err(format!("a well-typed document is rejected: {e}")), (Ok(Ok((ds, mh, dg))), Class::Accept(w)) | (Ok(Ok((ds, mh, dg))), Class::Unc(w)) => if ds == w.domain_separator && mh == w.message_hash && dg == w.digest { Ok("hashed") } else { Err(format!("digest {} instead of {}", explore::hex(&dg), explore::hex(&w.digest))) }, (Ok(Ok(_)), Class::Reject) => Err("hashed although the reference refuses".into()) }) } }
